@@ -244,7 +244,7 @@ static void save_current(void)
 static const char *PRIORS[] = {
     "ra { s1 one; s2 \"two\"; i1 0x10; b1 off; iv 1h; vol 2M; fl 2.5; l1 (p, q, r); l2 (z); ad \"::2\" 8080; sub { s3 x; un 1 } ; extra (1); };\n"
     "top level;\nrb { s1 bee; obj { k v }; };\nstray { a b; c (d); };\n",
-    "ra { s1 \"\\x41\\n\"; l1 (); ad host svc; }\nrb { }\n",
+    "ra { s1 \"\\x41\\n\"; l1 (); ad host svc; nh quiet; }\nrb { }\n",
     "\n",
     "core { modules ( iauth_class, iauth_xquery ); }\nlogs { \"*.>=info\" \"file:x.log\" }\niauth_class { r1 { class a; address \"10.0.0.0/8\" }; }\n",
 };
@@ -294,6 +294,7 @@ int LLVMFuzzerTestOneInput(const uint8_t *data, size_t size)
         conf_register_string(sub, CONF_STRING_PLAIN, "s3", "deep")->base.hook = the_hook;
         conf_register_string(rb, CONF_STRING_PLAIN, "s1", "other")->base.hook = the_hook;
         conf_register_string(NULL, CONF_STRING_PLAIN, "top", "t")->base.hook = the_hook;
+        conf_register_string(ra, CONF_STRING_PLAIN, "nh", NULL);      /* no change hook */
         inited = 1;
     }
     if (size < 1)
@@ -419,7 +420,8 @@ int main(void)
             char *name = unhex(argv[2]);
             char *def = unhex(argv[4]);   /* kept alive: config.c stores the pointer */
             struct conf_node_string *s = conf_register_string(p, atoi(argv[3]), name, def);
-            s->base.hook = the_hook;
+            if (!(argc >= 6 && !strcmp(argv[5], "nohook")))      /* a consumer that only reads the value when it needs it */
+                s->base.hook = the_hook;
             free(name);
             puts("ok");
         } else if (!strcmp(argv[0], "reg_onhook") && argc >= 7 && npending < 8) {
